@@ -4,6 +4,7 @@ import UtilModel.Routine.ProofsC14
 import UtilModel.Routine.ProofsK4
 import UtilModel.Routine.ProofsObs
 import UtilModel.Routine.ProofsObs2
+import UtilModel.Routine.ProofsObs3
 import UtilModel.Routine.ProofsRT
 import UtilModel.Routine.Monitors
 /-!
@@ -114,6 +115,22 @@ theorem superseded_cancelled (es : List Ev) (s : St) (hr : model.run model.init 
     (n : Nat) (x : Inst) (hx : s.insts[n]? = some x) (hne : curInst s ≠ some n) :
     s.isCancelled x = true :=
   (cur_run model.init s es cur_init good_init.recs hr).1.sc n x hx hne
+
+/-- **C05, first sentence, observable form** (`C05a_obs`): the monitor clause "once SetRoutine / SetState /
+SetStateRoutine / SwapValue (changed) / RestartRoutine (true) / SetContext (true) — or ClearContext, whatever it
+reports — has returned, no instance that was executing when the call was invoked is seen with a live context"
+accepts the observable trace of every run of the model, with any number of concurrent callers. The clause is part of
+`monC05`, which the driver evaluates on histories recorded from the real code. -/
+theorem C05a_obs (es : List Ev) (s : St) (hr : model.run model.init es = some s) :
+    monC05a.accepts (es.filterMap model.obs) = true := by
+  obtain ⟨ms, h, _⟩ := doom_run model.init s {} es good_init.recs cur_init i1_init doomLink_init hr
+  have : monC05a.run monC05a.init (es.filterMap model.obs) = some ms := h
+  simp [ObsMonitor.accepts, this]
+
+/-- an instance that has exited has a cancelled context -/
+theorem exited_cancelled (es : List Ev) (s : St) (hr : model.run model.init es = some s)
+    (n : Nat) (x : Inst) (hx : s.insts[n]? = some x) (hcl : x.st = .closed) : x.cancelled = true :=
+  i1_run model.init s es i1_init good_init.recs hr n x hx hcl
 
 /-- **C05, second sentence** (`quiescent_survivor`): in every reachable state (hence in every quiescent one) an
 instance that has not exited (waiting, or executing the function, or returning) with a live context is the current instance of the container's current record — so there is at most one
